@@ -62,6 +62,7 @@ class PathCtx:
         self.suspend_hook = None
         self.sleep_hook = None
         self.known = None
+        self.header_mismatch = None
 
     # --- facts / assumptions
     def fact(self, f):
@@ -310,6 +311,8 @@ class PathCtx:
     def note_failure(self, ob):
         ob.fresh = {k: v[0] for k, v in self.fresh_vars.items()}
         ob.known = self.known
+        if self.header_mismatch:
+            ob.detail = (ob.detail or "") + " [TENTATIVE: " + self.header_mismatch + "]"
 
     def require(self, cond):
         """harness: assume; summary: prove at call site"""
